@@ -72,6 +72,9 @@ func c04GenScen(h *H) *c04Scen {
 	if len(sc.script) > 0 {
 		sc.script[len(sc.script)-1].avail = []int{0, 1, nw, r.Intn(nw + 1)}[r.Intn(4)]
 	}
+	if sc.kind == "sel" && r.Intn(10) == 0 {
+		sc.kind = "selx" // the query cannot even be encoded (bad external data)
+	}
 	switch r.Intn(6) {
 	case 0:
 		sc.cut, sc.cutIn = r.Intn(len(sc.script)+1), r.Intn(2) == 0
